@@ -1,7 +1,7 @@
 SPECIFICATION MCSpec
 CONSTANTS Caps = {1, 2, 3, 4}
           Chars0 = {97}
-          NulUpTo = 3
+          NulUpTo = 2
           WildArgs = TRUE
           BigCodes = {1, 2, 3, 5, 7}
           WholeLen = 2
